@@ -110,8 +110,49 @@ func extractCrash(p *pkgs, f *facts) {
 			}
 		}
 	}
-	f.lean = append(f.lean, fmt.Sprintf("def crash : Crash.Params := ⟨%s, %s, %s, %s, %s⟩",
-		leanBool(cancels), leanBool(exits), leanBool(drains), leanBool(watches), leanBool(timeout)))
+	// the drain of linesCh: a top-level `defer func() { go func() { for range linesCh {} }() }()` registered before
+	// the statement holding the first-line select, so that it runs on every way out of Start
+	linesDrained := false
+	if start := p.fn("Client", "Start"); start != nil {
+		deferIdx, selIdx := -1, -1
+		for i, st := range start.Body.List {
+			if d, ok := st.(*ast.DeferStmt); ok && deferIdx < 0 {
+				if fl, ok := d.Call.Fun.(*ast.FuncLit); ok {
+					ast.Inspect(fl.Body, func(n ast.Node) bool {
+						g, ok := n.(*ast.GoStmt)
+						if !ok {
+							return true
+						}
+						ast.Inspect(g.Call, func(m ast.Node) bool {
+							if r, ok := m.(*ast.RangeStmt); ok && exprString(r.X) == "linesCh" {
+								deferIdx = i
+							}
+							return true
+						})
+						return true
+					})
+				}
+			}
+			if selIdx < 0 {
+				ast.Inspect(st, func(n ast.Node) bool {
+					if _, isLit := n.(*ast.FuncLit); isLit {
+						return false
+					}
+					if sel, ok := n.(*ast.SelectStmt); ok {
+						for _, c := range describeSelect(p, sel).comms {
+							if strings.Contains(c, "<-linesCh") {
+								selIdx = i
+							}
+						}
+					}
+					return true
+				})
+			}
+		}
+		linesDrained = deferIdx >= 0 && selIdx >= 0 && deferIdx < selIdx
+	}
+	f.lean = append(f.lean, fmt.Sprintf("def crash : Crash.Params := ⟨%s, %s, %s, %s, %s, %s⟩",
+		leanBool(cancels), leanBool(exits), leanBool(drains), leanBool(watches), leanBool(timeout), leanBool(linesDrained)))
 	f.set("crash", map[string]interface{}{"waitCancelsCtx": cancels, "waitSetsExited": exits, "drainsAfterScannerError": drains,
-		"startWatchesExit": watches, "startHasTimeout": timeout, "waitGoroutines": nWait})
+		"startWatchesExit": watches, "startHasTimeout": timeout, "linesAlwaysDrained": linesDrained, "waitGoroutines": nWait})
 }
